@@ -19,7 +19,6 @@ from jax2onnx.plugins._complex_utils import (
     COMPLEX_DTYPES,
     conjugate_packed_tensor,
     ensure_packed_real_pair,
-    is_packed_complex_tensor,
 )
 from jax2onnx.plugins._ir_shapes import _ensure_value_metadata, _stamp_type_and_shape
 from jax2onnx.plugins._post_check_onnx_graph import expect_graph as EG
@@ -102,9 +101,9 @@ class JnpConjPlugin(PrimitiveLeafPlugin):
         dtype = getattr(x_val, "dtype", None)
         complex_hint = (
             dtype in COMPLEX_DTYPES
-            # a (real, imag) pair layout only exists for values JAX knows as complex: a real
-            # tensor whose last dimension happens to be 2 is not one
-            or (is_packed_complex_tensor(x_val) and _is_complex_var(out_var))
+            # a (real, imag) pair layout only exists for OPERANDS JAX knows as complex: a real
+            # tensor whose last dimension happens to be 2 is not one (lax.conj of a real
+            # operand has a complex result, so the result type says nothing about the layout)
             or _is_complex_var(x_var)
         )
 
